@@ -190,10 +190,12 @@ impl<'a> MiniExec<'a> {
         self.flags[id].1.load(Ordering::SeqCst)
     }
 
-    /// Polls task `id` once (clearing its woken flag first). Returns true if it completed.
+    /// Polls task `id` once with a FRESH waker: by the `Future` contract only the waker of the most
+    /// recent poll has to be woken, so wake-ups delivered to an older waker of this task are ignored
+    /// from here on (a component that keeps a stale waker loses the wake-up).
     pub fn poll(&mut self, id: usize) -> bool {
         let Some(fut) = self.tasks[id].as_mut() else { return true };
-        self.flags[id].0.store(false, Ordering::SeqCst);
+        self.flags[id] = Arc::new(Flag(AtomicBool::new(false), AtomicU64::new(0)));
         let waker = Waker::from(Arc::clone(&self.flags[id]));
         let mut cx = Context::from_waker(&waker);
         self.polls += 1;
@@ -204,6 +206,13 @@ impl<'a> MiniExec<'a> {
             }
             Poll::Pending => false,
         }
+    }
+
+    /// Unfinished tasks that are not woken (candidates for a spurious poll).
+    pub fn idle(&self) -> Vec<usize> {
+        (0..self.tasks.len())
+            .filter(|i| self.tasks[*i].is_some() && !self.flags[*i].0.load(Ordering::SeqCst))
+            .collect()
     }
 
     /// Drops a task without completing it.
